@@ -519,7 +519,7 @@ def run(ctx):
                        "Non-trivial = accepted by cffi, defined in C, and not a bare decimal literal; distinct by C text.")
     ctx.assumptions += [
         "C09/Gen.v regenerated from cparser.py by tools/props/c09_regen.py (statement translator + shape-matching driver; "
-        "trusted, ~150 lines); the literal scanner of C09/Model.v is hand-written and tied by this run's differential test",
+        "trusted, ~150 lines) and, for length_path, from realize_c_type.c/_cffi_backend.c/parse_c_type.h by c09_lenpath.py; the literal scanner of C09/Model.v is hand-written and tied by this run's differential test",
         "C09/Spec.v (typed C evaluation, LP64, gcc's implementation-defined choices) is validated against gcc 12 on every run",
         "Python's integer operators mean what C09/Prim.v says (validated through the same run: every expression is evaluated "
         "by CPython inside cffi)"]
@@ -537,8 +537,16 @@ MANIFEST = dict(
          "value, for every table of earlier constants that agrees with C (C09_accepted_with_C_value_partial); without the "
          "restriction on character constants the only other outcome is a CDefError for multi-digit octal/hex escapes "
          "(C09_agree_partial, C09_literals_strong). The full statement is false (C09_refuted: 0u - 1, 0xFFFFFFFF + 1, "
-         "-0x80000000): known finding unsigned_arith. Contexts (array length, enumerator, bitfield width, #define, static "
-         "const, the three modes) are tested, not modelled.",
+         "-0x80000000): known finding unsigned_arith. Also proved: C09_c_div_zero, C09_number_literals. #define / static "
+         "const path: C09_define_value - _add_integer_constant (hand model, tied by the define/static-const contexts of the "
+         "correspondence run) gives every C integer literal of any radix and u/l suffix except gcc's 0b form its C value, and "
+         "'-'literal its negation (value only; the C type of the literal is not in the statement). Array-length context, "
+         "out-of-line modes: C09_length_path_preserves - the C types of every cast, variable and parameter between the "
+         "opcode stream and new_array_type() are REGENERATED (c09_lenpath.py, textual data-flow over realize_c_type.c; "
+         "untraceable = width 0) and every length in [0, 2^63) is proved to arrive unchanged; a narrowing anywhere on that "
+         "path breaks the obligation. The other contexts (enumerator incl. implicit +1 and references to earlier "
+         "enumerators, bitfield width, the three modes) are tested, not modelled.",
     note="Trusted: Coq kernel; translator c09_regen.py; hand model of literal scanning (tied by differential test); Spec.v "
-         "validated against gcc; LP64 only.",
+         "validated against gcc; LP64 only; c09_lenpath.py (regular-expression data-flow extraction + LP64 width table, "
+         "~200 lines).",
     design_ref="DESIGN.md §4 C09")
